@@ -4,7 +4,9 @@
 //	header:  G <nT> <nN> <start> <prods>     prods = ';'-joined  head>sym,sym,...   sym = t<i> | n<i>   ("-" = none)
 //	         terminals are t0..t(nT-1), non-terminals N0..N(nN-1); with the optional sixth field
 //	         "names=same" terminal i and non-terminal i carry the same NAME ("X<i>"): symbols are
-//	         told apart by their Go type only
+//	         told apart by their Go type only; with "names=concat" non-terminal i is named "A" repeated
+//	         i+1 times, so that different strings of non-terminals have the same concatenated rendering
+//	         ([N0,N0] and [N1], [N0,N1] and [N1,N0] and [N2], ...)
 //	ops:     V                 -> ok | err                      Verify()
 //	         RE                -> -                             drop the cached FIRST / FOLLOW closures
 //	         NUL               -> 0.2 | -                       NullableNonTerminals()  (sorted indices)
@@ -59,11 +61,17 @@ type pdesc struct {
 type gdesc struct {
 	nT, nN, start int
 	prods         []pdesc
-	same          bool // terminal i and non-terminal i share their name
+	names         int // 0 plain; nmSame: terminal i and non-terminal i share their name; nmConcat: ambiguous concatenations
 }
 
-// sameNames is the naming mode of the case being executed (cases run one at a time).
-var sameNames bool
+const (
+	nmPlain = iota
+	nmSame
+	nmConcat
+)
+
+// nameMode is the naming mode of the case being executed (cases run one at a time).
+var nameMode int
 
 func (s sdesc) String() string {
 	if s.term {
@@ -97,8 +105,11 @@ func (g gdesc) header() string {
 		s = "-"
 	}
 	h := fmt.Sprintf("G %d %d %d %s", g.nT, g.nN, g.start, s)
-	if g.same {
+	switch g.names {
+	case nmSame:
 		h += " names=same"
+	case nmConcat:
+		h += " names=concat"
 	}
 	return h
 }
@@ -128,10 +139,14 @@ func parseHeader(h string) (gdesc, error) {
 		return g, fmt.Errorf("bad header %q", h)
 	}
 	if len(f) == 6 {
-		if f[5] != "names=same" {
+		switch f[5] {
+		case "names=same":
+			g.names = nmSame
+		case "names=concat":
+			g.names = nmConcat
+		default:
 			return g, fmt.Errorf("bad header %q", h)
 		}
-		g.same = true
 	}
 	g.nT, _ = strconv.Atoi(f[1])
 	g.nN, _ = strconv.Atoi(f[2])
@@ -157,21 +172,30 @@ func parseHeader(h string) (gdesc, error) {
 }
 
 func tName(i int) grammar.Terminal {
-	if sameNames {
+	if nameMode == nmSame {
 		return grammar.Terminal("X" + strconv.Itoa(i))
 	}
 	return grammar.Terminal("t" + strconv.Itoa(i))
 }
 
 func nName(i int) grammar.NonTerminal {
-	if sameNames {
+	switch nameMode {
+	case nmSame:
 		return grammar.NonTerminal("X" + strconv.Itoa(i))
+	case nmConcat:
+		return grammar.NonTerminal(strings.Repeat("A", i+1))
 	}
 	return grammar.NonTerminal("N" + strconv.Itoa(i))
 }
 
-func tIndex(t grammar.Terminal) int    { i, _ := strconv.Atoi(string(t)[1:]); return i }
-func nIndex(n grammar.NonTerminal) int { i, _ := strconv.Atoi(string(n)[1:]); return i }
+func tIndex(t grammar.Terminal) int { i, _ := strconv.Atoi(string(t)[1:]); return i }
+func nIndex(n grammar.NonTerminal) int {
+	if nameMode == nmConcat {
+		return len(n) - 1
+	}
+	i, _ := strconv.Atoi(string(n)[1:])
+	return i
+}
 
 func goSyms(b []sdesc) grammar.String[grammar.Symbol] {
 	out := grammar.String[grammar.Symbol]{}
@@ -315,26 +339,32 @@ func classify(err error) string {
 }
 
 func treeString(in *inst, n parser.Node, yield *[]string) string {
-	switch v := n.(type) {
-	case *parser.LeafNode:
-		lex := "?"
-		if strings.HasPrefix(v.Lexeme, "l") {
-			lex = v.Lexeme[1:]
+	var b strings.Builder
+	var walk func(n parser.Node)
+	walk = func(n parser.Node) {
+		switch v := n.(type) {
+		case *parser.LeafNode:
+			lex := "?"
+			if strings.HasPrefix(v.Lexeme, "l") {
+				lex = v.Lexeme[1:]
+			}
+			s := strconv.Itoa(tIndex(v.Terminal)) + ":" + lex
+			*yield = append(*yield, s)
+			b.WriteByte('t')
+			b.WriteString(s)
+		case *parser.InternalNode:
+			fmt.Fprintf(&b, "(n%d#%d", nIndex(v.NonTerminal), in.prodIndex(v.Production))
+			for _, c := range v.Children {
+				b.WriteByte(' ')
+				walk(c)
+			}
+			b.WriteByte(')')
+		default:
+			b.WriteByte('?')
 		}
-		s := fmt.Sprintf("%d:%s", tIndex(v.Terminal), lex)
-		*yield = append(*yield, s)
-		return "t" + s
-	case *parser.InternalNode:
-		var b strings.Builder
-		fmt.Fprintf(&b, "(n%d#%d", nIndex(v.NonTerminal), in.prodIndex(v.Production))
-		for _, c := range v.Children {
-			b.WriteByte(' ')
-			b.WriteString(treeString(in, c, yield))
-		}
-		b.WriteByte(')')
-		return b.String()
 	}
-	return "?"
+	walk(n)
+	return b.String()
 }
 
 func (in *inst) exec(op string) (res string) {
@@ -515,7 +545,7 @@ func (in *inst) exec(op string) (res string) {
 // runCase executes one case under a watchdog: a fixpoint or parser loop that never returns is
 // reported as HANG on the op that was running, and the process exits (the goroutine spins).
 func runCase(w *tr.W, d gdesc, ops []string) {
-	sameNames = d.same
+	nameMode = d.names
 	w.Begin("%s", d.header())
 	done := make(chan struct{})
 	var cur atomic.Value
@@ -621,6 +651,26 @@ func c10Ops(d gdesc, r *rng.R, maxAlpha, extra int) []string {
 			ops = append(ops, fmt.Sprintf("FI n%d", i), fmt.Sprintf("FO n%d", i))
 		}
 		ops = append(ops, "LL1", "TBL")
+	}
+	if d.names == nmConcat && d.nN >= 2 {
+		// strings of non-terminals whose concatenated renderings coincide, asked on ONE FIRST
+		// function in both orders
+		groups := [][]string{{"n0,n0", "n1"}}
+		if d.nN >= 3 {
+			groups = append(groups, []string{"n0,n1", "n1,n0", "n2", "n0,n0,n0"}, []string{"n2", "n1,n0"})
+		}
+		for _, g := range groups {
+			ops = append(ops, "RE")
+			for i := range g {
+				ops = append(ops, "FI "+g[i])
+			}
+			ops = append(ops, "RE")
+			for i := len(g) - 1; i >= 0; i-- {
+				ops = append(ops, "FI "+g[i])
+			}
+			ops = append(ops, "FO n0", "FO n1")
+		}
+		ops = append(ops, "RE")
 	}
 	// in-place edits of the one grammar object, everything recomputed on it
 	return append(ops, editOps(d, r, nil, 2, 0, false)...)
@@ -745,7 +795,7 @@ func tokenStrings(nT, n int) [][]int {
 // c12Ops: Parse / ParseAndBuildAST on all strings up to a bound plus sentences, sentences with
 // extra tokens, truncated and perturbed sentences (up to length 7, one longer for the extras).
 func c12Ops(d gdesc, r *rng.R, allLen, nSent int) []string {
-	sameNames = d.same
+	nameMode = d.names
 	ops := []string{"V", "TBL"}
 	ws := stringsFor(d, r, allLen, nSent)
 	for _, w := range ws {
@@ -936,7 +986,7 @@ func editOps(d gdesc, r *rng.R, ws [][]int, rounds, perRound int, parse bool) []
 // ---------------------------------------------------------------- grammar generators
 
 func verifies(d gdesc) bool {
-	sameNames = d.same
+	nameMode = d.names
 	g, _ := d.build()
 	return g.Verify() == nil
 }
@@ -968,7 +1018,7 @@ func enumGrammars(nT, nN, maxBody, maxProds int, emit func(gdesc)) {
 			}
 			if ok {
 				enumCount++
-				emit(gdesc{nT: nT, nN: nN, start: 0, prods: append([]pdesc{}, chosen...), same: enumCount%2 == 0})
+				emit(gdesc{nT: nT, nN: nN, start: 0, prods: append([]pdesc{}, chosen...), names: enumCount % 3})
 			}
 		}
 		if len(chosen) == maxProds {
@@ -1091,14 +1141,132 @@ func randGrammar(r *rng.R, style int) gdesc {
 			d.prods = append(d.prods, pdesc{h, randBody(r, d, 3, 60)})
 		}
 	}
-	d.same = r.Bool()
+	d.names = r.Intn(3)
 	return dedup(d)
+}
+
+// wideGrammar: one non-terminal with 20..40 alternatives that start with distinct terminals and
+// continue with a nullable non-terminal, over 20..70 terminals (rows of the parsing table with many
+// entries).  N0 -> t_i N1 [t_j] | t_k ... ; N1 -> t_a | eps [| t_b N1] ; optionally a second wide N2.
+func wideGrammar(r *rng.R) gdesc {
+	d := gdesc{nT: r.Range(20, 70), nN: 2, start: 0, names: r.Intn(3)}
+	perm := make([]int, d.nT)
+	for i := range perm {
+		perm[i] = i
+	}
+	for i := len(perm) - 1; i > 0; i-- {
+		j := r.Intn(i + 1)
+		perm[i], perm[j] = perm[j], perm[i]
+	}
+	k := r.Range(20, min(40, d.nT))
+	wide2 := r.Chance(1, 3)
+	if wide2 {
+		d.nN = 3
+	}
+	for i := 0; i < k; i++ {
+		b := []sdesc{{true, perm[i]}, {false, 1}}
+		switch r.Intn(5) {
+		case 0:
+			b = b[:1]
+		case 1:
+			b = append(b, sdesc{true, r.Intn(d.nT)})
+		case 2:
+			if wide2 {
+				b = append(b, sdesc{false, 2})
+			}
+		}
+		d.prods = append(d.prods, pdesc{0, b})
+	}
+	if r.Chance(1, 4) {
+		d.prods = append(d.prods, pdesc{0, nil})
+	}
+	d.prods = append(d.prods, pdesc{1, []sdesc{{true, perm[d.nT-1]}}}, pdesc{1, nil})
+	if r.Bool() {
+		d.prods = append(d.prods, pdesc{1, []sdesc{{true, perm[d.nT-2]}, {false, 1}}})
+	}
+	if wide2 {
+		k2 := r.Range(17, min(30, d.nT))
+		for i := 0; i < k2; i++ {
+			d.prods = append(d.prods, pdesc{2, []sdesc{{true, perm[d.nT-1-i]}}})
+		}
+	}
+	return dedup(d)
+}
+
+func rep(xs []int, n int) []int {
+	var out []int
+	for i := 0; i < n; i++ {
+		out = append(out, xs...)
+	}
+	return out
+}
+
+func cat(xs ...[]int) []int {
+	var out []int
+	for _, x := range xs {
+		out = append(out, x...)
+	}
+	return out
+}
+
+// deepCases: long and deeply nested inputs (parser stack, pending-node stack of ParseAndBuildAST,
+// long production bodies).
+func deepCases(w *tr.W, thorough bool) {
+	pa := func(ws ...[]int) []string {
+		ops := []string{"V", "TBL"}
+		for _, x := range ws {
+			ops = append(ops, "P "+tokensString(x), "A "+tokensString(x))
+		}
+		return ops
+	}
+	depths := []int{100, 400, 1000, 3000}
+	if thorough {
+		depths = append(depths, 6000)
+	}
+	// E -> ( E ) | id        t0 = (  t1 = )  t2 = id
+	paren := gdesc{nT: 3, nN: 1, prods: []pdesc{{0, []sdesc{{true, 0}, {false, 0}, {true, 1}}}, {0, []sdesc{{true, 2}}}}}
+	// E -> T E' ; E' -> + T E' | eps ; T -> F T' ; T' -> * F T' | eps ; F -> ( E ) | id     t0=+ t1=* t2=( t3=) t4=id
+	expr := gdesc{nT: 5, nN: 5, prods: []pdesc{
+		{0, []sdesc{{false, 2}, {false, 1}}}, {1, []sdesc{{true, 0}, {false, 2}, {false, 1}}}, {1, nil},
+		{2, []sdesc{{false, 4}, {false, 3}}}, {3, []sdesc{{true, 1}, {false, 4}, {false, 3}}}, {3, nil},
+		{4, []sdesc{{true, 2}, {false, 0}, {true, 3}}}, {4, []sdesc{{true, 4}}}}}
+	for _, n := range depths {
+		runCase(w, paren, pa(
+			cat(rep([]int{0}, n), []int{2}, rep([]int{1}, n)),
+			cat(rep([]int{0}, n), []int{2}, rep([]int{1}, n-1)),
+			cat(rep([]int{0}, n), []int{2}, rep([]int{1}, n+1))))
+		runCase(w, expr, pa(
+			cat(rep([]int{2}, n), []int{4}, rep([]int{3}, n)),
+			cat(rep([]int{2}, n), []int{4, 0, 4, 1, 4}, rep([]int{3, 1, 4}, n)),
+			cat(rep([]int{2}, n), []int{4}, rep([]int{3}, n-1), []int{0}),
+			cat(rep([]int{4, 0, 2}, n), []int{4}, rep([]int{3}, n))))
+	}
+	// right-recursive lists:  L -> item L | eps ;  L -> item , L | item-less tail
+	list := gdesc{nT: 2, nN: 1, prods: []pdesc{{0, []sdesc{{true, 0}, {false, 0}}}, {0, nil}}}
+	list2 := gdesc{nT: 2, nN: 2, prods: []pdesc{{0, []sdesc{{true, 0}, {false, 1}}}, {1, []sdesc{{true, 1}, {false, 0}}}, {1, nil}}}
+	for _, n := range []int{1000, 5000} {
+		runCase(w, list, pa(rep([]int{0}, n), cat(rep([]int{0}, n), []int{1}), cat(rep([]int{0}, n/2), []int{1}, rep([]int{0}, n/2))))
+		runCase(w, list2, pa(cat(rep([]int{0, 1}, n), []int{0}), rep([]int{0, 1}, n), cat(rep([]int{0, 1}, n), []int{0, 0})))
+	}
+	// one production with a body of 1100 symbols:  S -> (t0 N1)^550 ; N1 -> t1 | eps     and a terminals-only body
+	var body []sdesc
+	for i := 0; i < 550; i++ {
+		body = append(body, sdesc{true, 0}, sdesc{false, 1})
+	}
+	long := gdesc{nT: 2, nN: 2, prods: []pdesc{{0, body}, {1, []sdesc{{true, 1}}}, {1, nil}}}
+	runCase(w, long, pa(rep([]int{0}, 550), rep([]int{0, 1}, 550), cat(rep([]int{0, 1}, 300), rep([]int{0}, 250)), rep([]int{0}, 549), rep([]int{0}, 551)))
+	var tbody []sdesc
+	for i := 0; i < 1100; i++ {
+		tbody = append(tbody, sdesc{true, i % 2})
+	}
+	long2 := gdesc{nT: 2, nN: 1, prods: []pdesc{{0, tbody}}}
+	runCase(w, long2, pa(rep([]int{0, 1}, 550), rep([]int{0, 1}, 549), cat(rep([]int{0, 1}, 550), []int{0})))
 }
 
 // ---------------------------------------------------------------- main
 
 func main() {
-	mode := flag.String("mode", "c10-exhaustive", "c10-exhaustive|c10-random|c12-exhaustive|c12-random")
+	mode := flag.String("mode", "c10-exhaustive", "c10-exhaustive|c10-random|c12-exhaustive|c12-random|c12-deep")
 	tier := flag.String("tier", "quick", "quick|thorough")
 	replay := flag.String("replay", "", "case file to re-execute")
 	flag.Parse()
@@ -1149,6 +1317,14 @@ func main() {
 			}
 			runCase(w, d, c10Ops(d, r, 1, 25))
 		}
+		nw := 40
+		if thorough {
+			nw = 400
+		}
+		for i := 0; i < nw; i++ {
+			d := wideGrammar(r)
+			runCase(w, d, c10Ops(d, r, 1, 10))
+		}
 	case "c12-exhaustive":
 		r := rng.FromEnv(12)
 		L := 4
@@ -1181,6 +1357,16 @@ func main() {
 			allLen := map[int]int{1: 7, 2: 5, 3: 4, 4: 3}[d.nT]
 			runCase(w, d, c12Ops(d, r, allLen, 30))
 		}
+		nw := 40
+		if thorough {
+			nw = 400
+		}
+		for i := 0; i < nw; i++ {
+			d := wideGrammar(r)
+			runCase(w, d, c12Ops(d, r, 1, 12))
+		}
+	case "c12-deep":
+		deepCases(w, thorough)
 	default:
 		fmt.Fprintln(os.Stderr, "unknown mode")
 		os.Exit(3)
